@@ -548,7 +548,8 @@ def lifecycle_cases(requests=('incr', 'decr', 'set', 'restart', 'reload',
         if kill_cmd:
             pool.append(req('kill', ww(st.fixed_dictionaries(
                 {"name": name}, optional={
-                    "signum": st.sampled_from([15, 2, 10, "HUP"]),
+                    "signum": st.sampled_from([15, 2, 10, "HUP", "RTMIN+1",
+                                               "SIGRTMIN+2"]),
                     "graceful_timeout": st.sampled_from([0.1, 0.25, 0,
                                                          0.0, 1.5])}))))
         if signal_cmd:
